@@ -85,10 +85,14 @@ Definition parse_core (t : bytes) : option core :=
 Definition qualifier_precedence_table : list (bytes * Z) :=
   Eval cbv delta [Verif.Gen.Tables.apache_getQualifierPrecedence] in Verif.Gen.Tables.apache_getQualifierPrecedence.
 
+(* the switch's default branch, also generated *)
+Definition qualifier_precedence_default : Z :=
+  Eval cbv delta [Verif.Gen.Tables.apache_getQualifierPrecedence_default] in Verif.Gen.Tables.apache_getQualifierPrecedence_default.
+
 Definition qualifier_precedence (q : bytes) : Z :=
   match lookup q qualifier_precedence_table with
   | Some p => p
-  | None => 99%Z
+  | None => qualifier_precedence_default
   end.
 
 (* compareQualifiers: no qualifier is greatest; otherwise (precedence, number) *)
